@@ -142,7 +142,7 @@ def check(run):
     elif r['status'] == 'refuted':
       run.ob(name, 'sat', r['secs'], detail=r['message'][:300])
       try:
-        args = xh.parse_args(r['args'])
+        args = xh.parse_args(r['args'], names=['schedule'])
       except Exception as ex:   # pylint: disable=broad-except
         run.fail('%s: cannot parse %r' % (name, r['args']))
         continue
